@@ -32,7 +32,7 @@ NEEDS = {
 CHECKS = {  # seed -> checks to try (own property first)
  "C01": ["C01"], "C02": ["C02"], "C03": ["C03"], "C04": ["C04", "C09"], "C05": ["C05", "C12"], "C06": ["C06"], "C07": ["C07"],
  "C08": ["C08"], "C09": ["C09", "C04"], "C10": ["C10", "C05"], "C11": ["C11", "C15"], "C12": ["C12", "C07"], "C13": ["C13"],
- "C14": ["C14"], "C15": ["C05", "C15"], "C19": ["C19", "C20"], "C20": ["C20", "C19"], "C02b": ["C02"], "C03b": ["C03"], "C09b": ["C09"], "C16": ["C16", "C01"], "C17": ["C17"], "C18": ["C18"],
+ "C14": ["C14"], "C15": ["C15", "C05"], "C19": ["C19", "C20"], "C20": ["C20", "C19"], "C02b": ["C02"], "C03b": ["C03"], "C09b": ["C09"], "C16": ["C16", "C01"], "C17": ["C17"], "C18": ["C18"],
 }
 names = sys.argv[1:] or sorted(os.listdir('/verif/seeded'))
 rows = []
